@@ -12,7 +12,12 @@
                            tp tpp = Ser.ser_toml_root, ep epp doc = Ser.ser_edit_root (read back by De.de_value),
                            val = Ser.tv_ser, tab = Ser.tv_ser_table (read back by De.tv_de).
      routes <type> <doc> <val> <dtree> <vtree>   (C13) every decoding route on the TREES the two texts denote
-                           (lib/props/c13.py passes them as extra arguments, entries in document order; the harness reads the texts)
+                           (lib/props/c13.py passes them as extra arguments, entries in document order; the harness reads the texts),
+                           followed by the TEXT-LEVEL routes of Proofs/C13TextModel.v on the document text <doc> itself
+                           (Coq parser, into_mut, the eight route functions): `T.<route>=ok:<value>|utf8|parse|de|unmodelled|panic`
+                           for t e esl edoc eim ttab tval efs; the float oracle is read off <dtree> (Extract/TextRoutesCmd.v);
+                           `T=-` when the floats of the text do not line up with the tree
+     slice <type> <bytes>  (C13) toml_edit::de::from_slice on ANY byte string: `esl=ok:<value>|utf8|parse|de|unmodelled`
      routes_ser <type> <value>             (C13) the same on the trees toml::to_string / toml::ser::ValueSerializer build
      tryfrom <type> <value>                (C13) Value::try_from / Table::try_from against the tree of the serialized text
      spanned <stype> <doc>                 (C14, serde half) a type with Spanned wrappers (`Y`) and its erasure on the span
@@ -22,6 +27,7 @@
    `-` is also the answer for a type outside the modelled universe (the untyped `toml::Value` leaf). *)
 From TV Require Import Base.Prelude Base.Utf8 Model.Datetime Model.DatetimeStd Model.SerNum
   Spec.SerdeData Model.Ser Model.De Model.SerFmt Model.SerdeRoutes Model.SerdeSpanned Extract.SpannedTree Extract.Show.
+From TV Require Proofs.C13TextModel Extract.TextRoutesCmd.
 Require Import String.
 
 (* ---- tokens ---- *)
@@ -339,7 +345,36 @@ Definition val_routes_line (t : ty) (x : tomlval) : list bytes :=
   [str "tvd=" ++ show_dec (decode R_tvd t x); str "evd=" ++ show_dec (decode R_evd t x);
    str "tvdval=" ++ show_dec (decode R_tvdval t x)].
 
-Definition cmd_routes (tys dtree vtree : bytes) : bytes :=
+(* ---- C13, text level ---- *)
+Definition show_tres (r : C13TextModel.tres) : bytes :=
+  match r with
+  | C13TextModel.TOk (C13TextModel.OVal v) => str "ok:" ++ show_sval v
+  | C13TextModel.TOk (C13TextModel.OToml x) => str "ok:" ++ show_tv x
+  | C13TextModel.TUtf8Err => str "utf8"
+  | C13TextModel.TParseErr => str "parse"
+  | C13TextModel.TDeErr => str "de"
+  | C13TextModel.TUnmodelled => str "unmodelled"
+  | C13TextModel.TPanic => str "panic"
+  end.
+Definition text_route_name (r : C13TextModel.text_route) : bytes :=
+  match r with
+  | C13TextModel.Tt => str "t" | C13TextModel.Te => str "e" | C13TextModel.Tesl => str "esl" | C13TextModel.Tedoc => str "edoc"
+  | C13TextModel.Teim => str "eim" | C13TextModel.Tefs => str "efs" | C13TextModel.Ttval => str "tval" | C13TextModel.Tttab => str "ttab"
+  end.
+Definition text_routes_line (t : ty) (doc : bytes) (tree : tomlval) : list bytes :=
+  if TextRoutesCmd.oracle_ok doc tree
+  then map (fun ra => str "T." ++ text_route_name (fst ra) ++ str "=" ++ show_tres (snd ra)) (TextRoutesCmd.text_answers t doc tree)
+  else [str "T=-"].
+
+Definition cmd_slice (tys bs : bytes) : bytes :=
+  let tt := split_on ","%byte tys in
+  match parse_ty (S (List.length tt)) tt with
+  | PUnmodelled => str "-"
+  | POk t [] => str "esl=" ++ show_tres (TextRoutesCmd.slice_answer t bs)
+  | _ => str "BADCASE"
+  end.
+
+Definition cmd_routes (tys doctext dtree vtree : bytes) : bytes :=
   let tt := split_on ","%byte tys in
   let dt := split_on ","%byte dtree in
   let xt := split_on ","%byte vtree in
@@ -348,7 +383,7 @@ Definition cmd_routes (tys dtree vtree : bytes) : bytes :=
   | POk t [], POk doc [], POk x [] =>
     (* doc: the tree of the document text (the empty document when the value is not a table), entries in
        document order; x: the tree of the single-value text *)
-    join (str " ") (str "valid=*" :: doc_routes_line t doc ++ val_routes_line t x)
+    join (str " ") (str "valid=*" :: doc_routes_line t doc ++ val_routes_line t x ++ text_routes_line t doctext doc)
   | _, _, _ => str "BADCASE"
   end.
 
@@ -502,7 +537,8 @@ Definition run_cmd (name : bytes) (args : list bytes) : bytes :=
          else if is name "routes_ser" then cmd_routes_ser tys vals
          else if is name "tryfrom" then cmd_tryfrom tys vals
          else if is name "spanned" then cmd_spanned tys vals
+         else if is name "slice" then cmd_slice tys vals
          else str "unknown-command"
-       | [tys; _; _; dtree; vtree] => if is name "routes" then cmd_routes tys dtree vtree else str "unknown-command"
+       | [tys; doctext; _; dtree; vtree] => if is name "routes" then cmd_routes tys doctext dtree vtree else str "unknown-command"
        | _ => if is name "routes" then str "-" else str "bad-args"
        end.
